@@ -252,7 +252,83 @@ func c14GenCfg(r *vu.Rng) c14Cfg {
 	return c
 }
 
+// c14HLS: RFC 9113 header list size of a field list: sum of name + value + 32.
+func c14HLS(kvs []c14KV) int {
+	n := 0
+	for _, kv := range kvs {
+		for _, v := range kv.vv {
+			n += len(kv.k) + len(v) + 32
+		}
+	}
+	return n
+}
+
+// c14GenLimit: a single exchange whose request (resp. response) header list lands exactly on,
+// one below or one above the MAX_HEADER_LIST_SIZE the receiving side advertises. The field set is
+// one whose wire form is known without consulting the code under test (no automatic fields).
+func c14GenLimit(r *vu.Rng) []string {
+	cfg := c14GenCfg(r)
+	cfg.gz, cfg.early = 0, 0
+	delta := r.Intn(3) - 1
+	onReq := r.Bool()
+	rq := &c14Req{idx: 0, method: "GET", scheme: c14Pick(r, []string{"https", "http"}),
+		uhost: c14Pick(r, []string{"example.com", "a.b.example:8443"}), path: c14GenPath(r, 0),
+		nilBody: true, crd: 4096, lim: "-"}
+	rq.hdr = []c14KV{{"User-Agent", []string{"c14/1"}}}
+	for k := r.Intn(4); k > 0; k-- {
+		rq.hdr = c14AddKV(rq.hdr, c14KV{c14Pick(r, []string{"X-Custom-A", "x-lower", "Accept", "Accept-Language", "Referer", "X-1"}),
+			[]string{string(r.BytesFrom(c14SafeAlpha, r.Range(0, 40)))}})
+	}
+	rs := &c14Resp{idx: 0, status: 200, mode: 0, rdsz: 4096, expl: true}
+	if r.Bool() {
+		rs.body = c14Pat(c14Pick(r, []int{1, 100, 5000}), r.Intn(251))
+	}
+	rs.hdr = []c14KV{{"Content-Type", []string{"text/plain"}}, {"Content-Length", []string{fmt.Sprint(len(rs.body))}},
+		{"Date", []string{"Tue, 22 Sep 2026 10:00:00 GMT"}}}
+	for k := r.Intn(4); k > 0; k-- {
+		rs.hdr = c14AddKV(rs.hdr, c14KV{c14Pick(r, []string{"X-Resp-A", "X-Resp-B", "Etag", "Vary", "Server"}),
+			[]string{string(r.BytesFrom(c14SafeAlpha, r.Range(0, 40)))}})
+	}
+	// limits: small, medium, and above 16 KiB (CONTINUATION at the limit)
+	lim := c14Pick(r, []int{1000, 4096, 20000})
+	var base int
+	if onReq {
+		cfg.smh = lim
+		lim += 320 // adjustHTTP1MaxHeaderSize: MaxHeaderBytes + 10*32
+		base = c14HLS([]c14KV{{":authority", []string{rq.uhost}}, {":method", []string{"GET"}}, {":path", []string{rq.path}},
+			{":scheme", []string{rq.scheme}}}) + c14HLS(rq.hdr)
+	} else {
+		cfg.cmh = lim
+		base = c14HLS([]c14KV{{":status", []string{"200"}}}) + c14HLS(rs.hdr)
+	}
+	pad := lim + delta - base - (len("X-Pad") + 32)
+	if pad < 0 {
+		// the drawn fields alone exceed the small limit: drop the optional ones
+		if onReq {
+			rq.hdr, rq.path = rq.hdr[:1], "/0/"
+			base = c14HLS([]c14KV{{":authority", []string{rq.uhost}}, {":method", []string{"GET"}}, {":path", []string{rq.path}},
+				{":scheme", []string{rq.scheme}}}) + c14HLS(rq.hdr)
+		} else {
+			rs.hdr = rs.hdr[:3]
+			base = c14HLS([]c14KV{{":status", []string{"200"}}}) + c14HLS(rs.hdr)
+		}
+		pad = lim + delta - base - (len("X-Pad") + 32)
+	}
+	padKV := c14KV{"X-Pad", []string{string(r.BytesFrom(c14SafeAlpha, pad))}}
+	if onReq {
+		rq.hdr = append(rq.hdr, padKV)
+		rq.lim = fmt.Sprintf("req%d", delta)
+	} else {
+		rs.hdr = append(rs.hdr, padKV)
+		rq.lim = fmt.Sprintf("resp%d", delta)
+	}
+	return []string{cfg.line(), rq.line(), rs.line(), "end"}
+}
+
 func c14Gen(r *vu.Rng, _ int) []string {
+	if r.Chance(1, 8) {
+		return c14GenLimit(r)
+	}
 	cfg := c14GenCfg(r)
 	n := 1
 	if r.Chance(1, 3) {
